@@ -16,6 +16,9 @@ THEOREMS = [
     "KrroodVerif.Quant.C09_never_exceeds_upper",
     "KrroodVerif.Quant.C09_all_iff_satisfies",
     "KrroodVerif.Quant.C09_the",
+    "KrroodVerif.Quant.C09_value_blind",
+    "KrroodVerif.Quant.C09_the_value_blind",
+    "KrroodVerif.Quant.C09_history_independent",
 ]
 MODEL_FUNCTION = "Quant.run / Quant.assertSat / Quant.mkSingle / Quant.mkRange / Quant.theRun (Model/Quantifier.lean)"
 TRUSTED = [
